@@ -89,6 +89,10 @@ pub fn c10(ctx: &Ctx) -> PropResult {
             cases.push(run_case(src, &format!("{module}.{name}")));
         }
     }
+    // texts that are fragments of number syntax through every procedure that reads a text
+    for src in crate::props6::number_fragment_family() {
+        cases.push(run_case(src, "number-fragments"));
+    }
     // the same call site run twice with the name re-bound in between
     for src in crate::props6::rebinding_between_runs_family(&reg) {
         cases.push(run_case(src, "rebinding-between-runs"));
@@ -200,7 +204,7 @@ pub fn c10(ctx: &Ctx) -> PropResult {
     let stats = run_cases(&ctx.driver, cases, &no_panic_oracle, &no_known, ctx.threads);
     PropResult {
         stats,
-        rule: format!("registry-driven sweep: every procedure of CORE, MATH, STRING, MAP, IO, STYLE, TIME found in the live registry (except INPUT*/RANDOM/TIME, see C12/C15) applied to argument tuples over {} exemplars per position (all tuples when they fit the budget, otherwise every exemplar at every position plus random tuples); every statement form applied to every exemplar; random stateful programs calling library procedures; in-process under catch_unwind with a statement budget; non-trivial = ended normally or with a runtime error; the same call site run twice with the name re-bound in between (user procedure with fewer parameters / IMPORT of the library module, both orders); library procedures that build lists called twice with the first result changed in between", EXEMPLARS.len()),
+        rule: format!("registry-driven sweep: every procedure of CORE, MATH, STRING, MAP, IO, STYLE, TIME found in the live registry (except INPUT*/RANDOM/TIME, see C12/C15) applied to argument tuples over {} exemplars per position (all tuples when they fit the budget, otherwise every exemplar at every position plus random tuples); every statement form applied to every exemplar; random stateful programs calling library procedures; in-process under catch_unwind with a statement budget; non-trivial = ended normally or with a runtime error; the same call site run twice with the name re-bound in between (user procedure with fewer parameters / IMPORT of the library module, both orders); library procedures that build lists called twice with the first result changed in between; 64 texts that are fragments of number syntax through the text procedures", EXEMPLARS.len()),
         exhaustive: false,
         notes: vec![],
     }
@@ -375,6 +379,13 @@ pub fn c14(ctx: &Ctx) -> PropResult {
         }
         Ok(nt)
     };
+    for src in crate::props6::number_fragment_family() {
+        cases.push(run_case(src, "number-fragments"));
+    }
+    // texts with line structure (LF, CR LF, lone CR, tabs) through the two-argument procedures
+    for src in crate::props6::line_structure_family() {
+        cases.push(run_case(src, "line-structure"));
+    }
     // SPLIT builds a new list each time (changing one result leaves later results alone)
     for src in crate::props6::native_list_freshness_family() {
         if src.contains("SPLIT") {
@@ -384,7 +395,7 @@ pub fn c14(ctx: &Ctx) -> PropResult {
     let stats = run_cases(&ctx.driver, cases, &oracle, &no_known, ctx.threads);
     PropResult {
         stats,
-        rule: format!("every string of length <= {max} over {{a, b, blank, é, 中, 😀}} through all one-argument STRING procedures, LENGTH / FOR EACH / largest valid index consistency, a sample of patterns of length <= 2 for CONTAINS / STARTS_WITH / ENDS_WITH / SPLIT / JOIN / REPLACE with the law JOIN(SPLIT(s,p),p) = s evaluated in-language, SUBSTRING with start / length over {{-1, 0, 0.5, 1, 1.9, 2, LENGTH, LENGTH+1, NaN, inf}}; TO_NUMBER / TO_BOOL on 27 spellings; random Unicode strings incl. case-mapping specials (ß, İ, ǅ, ﬁ) and Unicode blanks; non-trivial = ended normally or with a runtime error; SPLIT called twice with the first result changed in between"),
+        rule: format!("every string of length <= {max} over {{a, b, blank, é, 中, 😀}} through all one-argument STRING procedures, LENGTH / FOR EACH / largest valid index consistency, a sample of patterns of length <= 2 for CONTAINS / STARTS_WITH / ENDS_WITH / SPLIT / JOIN / REPLACE with the law JOIN(SPLIT(s,p),p) = s evaluated in-language, SUBSTRING with start / length over {{-1, 0, 0.5, 1, 1.9, 2, LENGTH, LENGTH+1, NaN, inf}}; TO_NUMBER / TO_BOOL on 27 spellings; random Unicode strings incl. case-mapping specials (ß, İ, ǅ, ﬁ) and Unicode blanks; non-trivial = ended normally or with a runtime error; SPLIT called twice with the first result changed in between; fragments of number syntax; texts with LF / CR LF / lone CR / tabs through SPLIT / JOIN / REPLACE / CONTAINS / TRIM"),
         exhaustive: false,
         notes: vec!["Σ (final-sigma rule of to_lowercase) is excluded from the alphabets: the model's TO_LOWER is context-free".into()],
     }
@@ -433,6 +444,26 @@ pub fn c15(ctx: &Ctx) -> PropResult {
                     cases.push(run_case(format!("{pre}DISPLAY({name}({}))\n", args.join(", ")), tag));
                 }
             }
+        }
+    }
+    // a dense sweep: every multiple of 1/8 in [-50, 50] (saturation bands, branch cuts and fast-path thresholds of the
+    // individual functions lie somewhere in this range), twenty arguments per program
+    for (module, name, arity) in &reg {
+        if module != "MATH" || *arity != 1 {
+            continue;
+        }
+        let mut k = -400i32;
+        while k <= 400 {
+            let mut body = String::new();
+            for j in 0..20 {
+                let x = (k + j) as f64 / 8.0;
+                if k + j > 400 || (name == "ATANH" && x > -1.0 && x < -0.99) {
+                    continue;
+                }
+                body.push_str(&format!("DISPLAY({name}({}))\n", if x < 0.0 { format!("0 - {}", -x) } else { format!("{x}") }));
+            }
+            cases.push(run_case(format!("{pre}{body}"), &format!("MATH.{name}")));
+            k += 20;
         }
     }
     // several calls in one program (a cache keyed by the argument must not confuse 0 with -0, nor one procedure with
@@ -519,7 +550,7 @@ pub fn c15(ctx: &Ctx) -> PropResult {
     let stats = run_cases(&ctx.driver, cases, &oracle, &no_known, ctx.threads);
     PropResult {
         stats,
-        rule: "every MATH procedure of the live registry on 26 special values (zeros, domain boundaries, huge, inf, NaN) and random decimals; multi-argument procedures with asymmetric random arguments; random decimal literals (1-25 digits, with and without fraction) displayed, converted to text and back (TO_NUMBER of the text == the number, in-language), and combined arithmetically; RANDOM on all integer pairs a <= b in [-3,3] with repeated draws (range and integrality checked in-language on the implementation), edge ranges; compared with the model: output text exact (transcendental functions: both sides call the platform's libm); exact powers among the arguments; results of procedures libm has are compared exactly, ASINH / ACOSH / ATANH numerically".into(),
+        rule: "every MATH procedure of the live registry on 26 special values (zeros, domain boundaries, huge, inf, NaN) and random decimals; multi-argument procedures with asymmetric random arguments; random decimal literals (1-25 digits, with and without fraction) displayed, converted to text and back (TO_NUMBER of the text == the number, in-language), and combined arithmetically; RANDOM on all integer pairs a <= b in [-3,3] with repeated draws (range and integrality checked in-language on the implementation), edge ranges; compared with the model: output text exact (transcendental functions: both sides call the platform's libm); exact powers among the arguments; results of procedures libm has are compared exactly, ASINH / ACOSH / ATANH numerically; every multiple of 1/8 in [-50, 50] through every one-argument procedure".into(),
         exhaustive: false,
         notes: vec![],
     }
@@ -654,10 +685,14 @@ pub fn c16(ctx: &Ctx) -> PropResult {
     for src in crate::props6::map_equal_values_family() {
         cases.push(run_case(src, "equal-values"));
     }
+    // a stored list that comes out of MAP_GET / MAP_INSERT / MAP_VALUES is the stored list itself
+    for src in crate::props6::library_result_identity_family() {
+        cases.push(run_case(src, "library-result-identity"));
+    }
     let stats = run_cases(&ctx.driver, cases, &oracle, &no_known, ctx.threads);
     PropResult {
         stats,
-        rule: "histories of MAP_INSERT / MAP_GET / MAP_CONTAINS_KEY on two maps with keys {1, 1.0, 0, -0, \"1\", TRUE, FALSE, NULL, NaN, 2, \"\", \"a\", 0.5}: all histories of length 2 (after an initial insert; quick: a sample), random histories of length 3-40, each followed by the sizes of MAP_KEYS / MAP_VALUES and a membership probe per key; every non-map value as the map argument of every MAP procedure; every result line compared with the model (association list proved equal to the ideal finite map); MAP_KEYS / MAP_VALUES called twice with the first result changed in between (filled, empty, new map); values equal to the stored one but distinguishable (0 / -0, equal-contents lists)".into(),
+        rule: "histories of MAP_INSERT / MAP_GET / MAP_CONTAINS_KEY on two maps with keys {1, 1.0, 0, -0, \"1\", TRUE, FALSE, NULL, NaN, 2, \"\", \"a\", 0.5}: all histories of length 2 (after an initial insert; quick: a sample), random histories of length 3-40, each followed by the sizes of MAP_KEYS / MAP_VALUES and a membership probe per key; every non-map value as the map argument of every MAP procedure; every result line compared with the model (association list proved equal to the ideal finite map); MAP_KEYS / MAP_VALUES called twice with the first result changed in between (filled, empty, new map); values equal to the stored one but distinguishable (0 / -0, equal-contents lists); stored lists that come out of MAP_GET / MAP_INSERT / MAP_VALUES changed through the result and through the original".into(),
         exhaustive: !ctx.quick(),
         notes: vec!["numeric keys that are == in the language but not IEEE-equal (within epsilon), and infinite keys, are outside the generator: known finding, see known_findings.txt".into()],
     }
@@ -731,6 +766,13 @@ pub fn c17(ctx: &Ctx) -> PropResult {
         }
         cases.push(run_case(format!("IMPORT MOD \"ROBOT\"\nr <- ROBOT_MAP(\"{grid}\")\nDISPLAY(r == NULL)\nDISPLAY(FORMAT_ROBOT_ASCII(r))\n{body}DISPLAY(FORMAT_ROBOT(r))\n"), "trailing-blanks"));
     }
+    // lines made of white space only: blanks are empty cells, any other white-space character is an unknown symbol
+    // wherever it stands (alone on a line, among blanks, at the end of the text)
+    for ws in ["\\t", "\\r", " \\t ", "\\t\\t", "\u{b}", "\u{c}", "\u{a0}", "\u{3000}", "\u{2003}"] {
+        for grid in [format!("n\\n{ws}"), format!("{ws}\\nn"), format!("n.\\n{ws}\\n.."), format!("n\\n {ws}"), format!("n\\n{ws}\\n"), format!("n{ws}"), format!("{ws}n"), format!("n\\n\\n{ws}")] {
+            cases.push(run_case(format!("IMPORT MOD \"ROBOT\"\nr <- ROBOT_MAP(\"{grid}\")\nDISPLAY(r == NULL)\nDISPLAY(FORMAT_ROBOT_ASCII(r))\n"), "white-space-lines"));
+        }
+    }
     // checkpoint corridors: the goal answers TRUE only after every checkpoint, in order
     for corridor in ["e12x", "e21x", "e11x", "e13x", "e1x2", "ex", "e.x", "e1.2.x", "e#x", "e123456789x"] {
         let steps = corridor.len() + 1;
@@ -782,7 +824,7 @@ pub fn c17(ctx: &Ctx) -> PropResult {
     let stats = run_cases(&ctx.driver, cases, &oracle, &no_known, ctx.threads);
     PropResult {
         stats,
-        rule: "random grids up to 3x4 over {#, ., x, 1, 2, 3, blank, @, ',', X, robot markers in both cases}, ragged lines, LF / CRLF, trailing newline, with one robot (85%), none, two, or an unknown symbol / 0 digit; random command sequences of length 1-10 (rotations, guarded and unguarded MOVE_FORWARD); after every command the ASCII rendering and CAN_MOVE in all four directions (and an unknown direction word) are displayed; checkpoint corridors incl. out-of-order, repeated and skipped numbers; every ROBOT procedure on every argument exemplar; unguarded moves into a wall must end the run as the specified termination, with the earlier output intact; all output compared with the model; grids whose rightmost columns are blank in every line, walked systematically".into(),
+        rule: "random grids up to 3x4 over {#, ., x, 1, 2, 3, blank, @, ',', X, robot markers in both cases}, ragged lines, LF / CRLF, trailing newline, with one robot (85%), none, two, or an unknown symbol / 0 digit; random command sequences of length 1-10 (rotations, guarded and unguarded MOVE_FORWARD); after every command the ASCII rendering and CAN_MOVE in all four directions (and an unknown direction word) are displayed; checkpoint corridors incl. out-of-order, repeated and skipped numbers; every ROBOT procedure on every argument exemplar; unguarded moves into a wall must end the run as the specified termination, with the earlier output intact; all output compared with the model; grids whose rightmost columns are blank in every line, walked systematically; lines made of white space other than blanks (tab, CR, VT, FF, no-break, ideographic and em space)".into(),
         exhaustive: false,
         notes: vec![],
     }
